@@ -16,8 +16,8 @@ from crverif.oracle import geom
 
 
 def dim(lo=0.2, hi=12.0):
-    return st.one_of(st.floats(lo, hi, allow_nan=False), st.integers(1, 8).map(float),
-                     st.integers(2, 100).map(lambda k: k / 10.0))
+    return st.one_of(st.floats(lo, hi, allow_nan=False), st.integers(1, 8).map(float).filter(lambda v: lo <= v <= hi),
+                     st.integers(2, 100).map(lambda k: k / 10.0).filter(lambda v: lo <= v <= hi))
 
 
 def star_polygon(center=None, rmin=0.3, rmax=6.0, nmin=3, nmax=7):
@@ -43,33 +43,36 @@ def recentre(poly):
     return {"k": "poly", "v": v, "c": star}
 
 
-def rectangle(centered=False, free_orientation=True):
+def rectangle(centered=False, free_orientation=True, lo=0.2):
     c = st.none() if centered else st.one_of(st.none(), point(100))
     o = st.one_of(st.none(), angle()) if free_orientation else st.none()
-    return st.fixed_dictionaries({"k": st.just("rect"), "l": dim(), "w": dim(), "c": c, "o": o})
+    return st.fixed_dictionaries({"k": st.just("rect"), "l": dim(lo, max(12.0, 4 * lo)), "w": dim(lo, max(12.0, 4 * lo)),
+                                  "c": c, "o": o})
 
 
-def circle(centered=False):
+def circle(centered=False, lo=0.1):
     c = st.none() if centered else st.one_of(st.none(), point(100))
-    return st.fixed_dictionaries({"k": st.just("circle"), "r": dim(0.1, 8.0), "c": c})
+    return st.fixed_dictionaries({"k": st.just("circle"), "r": dim(lo, max(8.0, 4 * lo)), "c": c})
 
 
-def polygon(centered=False):
+def polygon(centered=False, lo=0.3):
     if centered:
-        return star_polygon(center=[0.0, 0.0]).map(recentre)
-    return star_polygon()
+        return star_polygon(center=[0.0, 0.0], rmin=lo, rmax=max(6.0, 4 * lo)).map(recentre)
+    return star_polygon(rmin=lo, rmax=max(6.0, 4 * lo))
 
 
-def simple_shape(centered=False):
-    return st.one_of(rectangle(centered), circle(centered), polygon(centered))
+def simple_shape(centered=False, lo=0.2, oriented=True):
+    return st.one_of(rectangle(centered, oriented, lo=lo), circle(centered, lo=lo), polygon(centered, lo=max(lo, 0.3)))
 
 
-def shape_group(centered=False, nmin=2, nmax=3):
-    return st.lists(simple_shape(centered), min_size=nmin, max_size=nmax).map(lambda m: {"k": "group", "m": m})
+def shape_group(centered=False, nmin=2, nmax=3, lo=0.2, oriented=True):
+    return st.lists(simple_shape(centered, lo, oriented), min_size=nmin, max_size=nmax).map(
+        lambda m: {"k": "group", "m": m})
 
 
-def any_shape(centered=False):
-    return st.one_of(rectangle(centered), circle(centered), polygon(centered), shape_group(centered))
+def any_shape(centered=False, lo=0.2, oriented=True):
+    return st.one_of(rectangle(centered, oriented, lo=lo), circle(centered, lo=lo), polygon(centered, lo=max(lo, 0.3)),
+                     shape_group(centered, lo=lo, oriented=oriented))
 
 
 def build_shape(r):
